@@ -3,6 +3,8 @@
 
 import dill
 import multiprocessing
+import queue
+import traceback
 
 
 def _run_dill_encoded(payload):
@@ -10,6 +12,16 @@ def _run_dill_encoded(payload):
     res = fun(args, **kwargs)
     res = dill.dumps(res)
     return res
+
+
+class _TaskFailure:
+    """
+    Returned by a worker in place of a result when the task raised an exception, so that
+    ParallelMap.__call__() can raise an exception in the calling process.
+    """
+
+    def __init__(self, description):
+        self.description = description
 
 
 class ParallelMap:
@@ -69,9 +81,16 @@ class ParallelMap:
         f_Z = equilibrium.f_Z
         while True:
             i, function, args, kwargs = task_queue.get()
-            result = function(
-                *args, equilibrium=equilibrium, psi=psi, f_R=f_R, f_Z=f_Z, **kwargs
-            )
+            try:
+                result = function(
+                    *args, equilibrium=equilibrium, psi=psi, f_R=f_R, f_Z=f_Z, **kwargs
+                )
+            except Exception as e:
+                # Report the failure to the calling process, which would otherwise wait
+                # forever for the result of this task
+                result = _TaskFailure(
+                    f"{type(e).__name__}: {e}\n{traceback.format_exc()}"
+                )
             result_queue.put((i, result))
 
     def __call__(self, function, args_list, **kwargs):
@@ -95,9 +114,28 @@ class ParallelMap:
             self.task_queue.put((i, function, args, kwargs))
 
         result = [None for i in range(n_tasks)]
+        failure = None
         for count in range(n_tasks):
-            i, this_result = self.result_queue.get()
+            while True:
+                try:
+                    i, this_result = self.result_queue.get(timeout=1.0)
+                    break
+                except queue.Empty:
+                    # Do not wait forever if a worker process has died
+                    if not all(worker.is_alive() for worker in self.workers):
+                        raise RuntimeError(
+                            "A ParallelMap worker process exited before all tasks "
+                            "were finished"
+                        )
+            if failure is None and isinstance(this_result, _TaskFailure):
+                failure = (i, this_result)
             result[i] = this_result
+
+        if failure is not None:
+            raise RuntimeError(
+                f"Task {failure[0]} failed in a ParallelMap worker process:\n"
+                f"{failure[1].description}"
+            )
 
         if not self.task_queue.empty():
             raise ValueError("Some tasks not finished")
